@@ -27,10 +27,10 @@ COMPILERS = {
 # compiler's own feature frequent
 MASKS = {
     "grounder": dict(),
-    "cerm": dict(conditional=True),
-    "dcrm": dict(disjunction=True),
-    "ncrm": dict(negation=True, numeric=False, objfluents=False, implies=False, equality=False, bool_expr_assign=False),
-    "qrm": dict(quantifiers=True),
+    "cerm": dict(conditional=True, cond_prob=0.6),
+    "dcrm": dict(disjunction=True, cond_prob=0.5, op_bias={"or": 4, "implies": 1}),
+    "ncrm": dict(negation=True, numeric=False, objfluents=False, implies=False, equality=False, bool_expr_assign=False, op_bias={"not": 3}),
+    "qrm": dict(quantifiers=True, op_bias={"exists": 2, "forall": 2}),
     "utfrm": dict(objfluents=True),
     "btrm": dict(bounded=True),
     "sirm": dict(invariants=True),
@@ -66,8 +66,7 @@ def compile_one(cid, P, cname, fresh_env=False):
            "has_back_conversion": False}
     env = up.environment.Environment() if fresh_env else None
     try:
-        with time_limit(20):
-            problem = upj.build(P, env)
+        problem = call_limited(lambda: upj.build(P, env), 20, 10)
     except ImplTimeout:
         rec["skip"] = "build-timeout"
         return rec
@@ -187,13 +186,63 @@ def compile_pipeline(cid, P, cnames):
     return rec
 
 
+def goal_directed(P, seed, L=3):
+    """Corpus generator only (no verdict depends on it): replace P's goals by 1-2 ground literals that a random
+    walk of at most L steps of the real simulator made true and that do not hold initially, so that P has a short
+    valid plan whose success depends on the effects along it.  Any failure leaves P unchanged."""
+    import copy
+
+    import warnings
+
+    rng = random.Random(seed)
+    try:
+        with time_limit(30), warnings.catch_warnings():
+            warnings.simplefilter("ignore")
+            from unified_planning.engines.sequential_simulator import UPSequentialSimulator
+
+            problem = upj.build(P)
+            sim = UPSequentialSimulator(problem, error_on_failed_checks=False)
+            s0 = sim.get_initial_state()
+            s = s0
+            for _ in range(rng.randint(1, L)):
+                acts = list(sim.get_applicable_actions(s))
+                if not acts:
+                    break
+                a, ps = rng.choice(acts)
+                s2 = sim.apply(s, a, ps)
+                if s2 is None:
+                    break
+                s = s2
+            changed = []
+            for fe, v0 in problem.initial_values.items():
+                v1 = s.get_value(fe)
+                if v1 != v0 and fe.type.is_bool_type():
+                    changed.append(upj.p_expr(fe) if v1.bool_constant_value() else upj.E("not", [upj.p_expr(fe)]))
+                elif v1 != v0 and "EQUALITIES" in str(problem.kind):
+                    changed.append(upj.E("eq", [upj.p_expr(fe), upj.p_expr(v1)]))
+            if not changed:
+                return P
+            rng.shuffle(changed)
+            Q = copy.deepcopy(P)
+            Q["goals"] = changed[: rng.randint(1, 2)]
+            upj.build(Q)  # the variant must still be a well-formed problem
+            return Q
+    except (ImplTimeout, Exception):
+        return P
+
+
 def worker(job):
     cid, P, cname, fresh = job
+    gd = fresh == "goal-directed"
+    if gd:
+        P = goal_directed(P, cid)
+        fresh = False
     try:
         if isinstance(cname, (list, tuple)):
             return compile_pipeline(cid, P, list(cname))
         r = compile_one(cid, P, cname, fresh)
         r.setdefault("pipeline", False)
+        r["gd"] = gd
         r.setdefault("stage_rejected", False)
         r.setdefault("declared_exc", "none")
         r.setdefault("qnames", {"actions": [], "fluents": [], "objects": [], "types": []})
